@@ -53,8 +53,13 @@ def r1_raw_read(ctx, R1):
         read1 = r.truth(READ1)
         enforce = r.truth(ENF)
         rem_none, rem0, rem_t = r.is_none(REM), r.cmp(REM, "==", "0"), r.truth(REM)
-        nothing_left = rem_none is True or rem0 is True or rem_t is False
-        definite = (rem_none is False and rem0 is False) or rem_t is True
+        rem_in = None  # `length_remaining in (None, 0)` spelt as one membership test
+        for k_, v_ in r.st.ts.items():
+            if isinstance(k_, tuple) and len(k_) == 4 and k_[0] == "cmp" and k_[1] == REM and k_[2] == "in" and destruct(str(k_[3]))[0] == "const" \
+                    and isinstance(destruct(str(k_[3]))[1], (tuple, frozenset, list)) and set(destruct(str(k_[3]))[1]) == {None, 0}:
+                rem_in = v_
+        nothing_left = rem_none is True or rem0 is True or rem_t is False or rem_in is True
+        definite = (rem_none is False and rem0 is False) or rem_t is True or rem_in is False
         if data_t is not False or amt0 is True or enforce is False or nothing_left:
             continue
         if amt_none is True and read1 is not True:
@@ -104,7 +109,7 @@ def r2_chunk_size_line(ctx, R2):
                 ctx.ob(R2, uc.qual, "with no chunk in progress a size line is read", False, witness=r.witness(), node=uc.node)
                 continue
             nok += 1
-            ok = len(st) == 1 and destruct(st[0])[0] == "int" and len(destruct(st[0])[1]) == 2 and destruct(st[0])[1][0] in FIELDS and destruct(st[0])[1][1] == "16"
+            ok = len(st) == 1 and destruct(st[0])[0] == "int" and len(destruct(st[0])[1]) == 2 and destruct(st[0])[1][0] in FIELDS and destruct(st[0])[1][1] in ("16", "base=16")
             ctx.ob(R2, uc.qual, "size line parsed as int(line-before-';', 16) into chunk_left", ok, f"chunk_left = {st}", witness=r.witness(), node=uc.node)
     ctx.sites(R2, n, 1, "error exits of _update_chunk_length")
     ctx.sites(R2, nok, 1, "parsing exits of _update_chunk_length")
